@@ -1,0 +1,11 @@
+//go:build verif
+
+package queue
+
+// VerifWaitFlags lets the verification harness (property C04) read the two flags CancelTaskDelay and
+// waitForTask share: is a wait loop in progress, is a cancel request pending. Read-only.
+func (q *TaskQueue) VerifWaitFlags() (bool, bool) {
+	q.waitMu.Lock()
+	defer q.waitMu.Unlock()
+	return q.waitInProgress, q.cancelDelay
+}
